@@ -68,6 +68,9 @@ class Outcome:
                                                model=case.get("model"), features=case.get("features")))
 
     def add_violation(self, key, witness):
+        if key.startswith("HARNESS:"):
+            self.infra.append("%s: %s/%s case %s: %s" % (key, witness.get("driver"), witness.get("flavour"), witness.get("case"), str(witness.get("detail"))[:500]))
+            return
         self.vcount[key] = self.vcount.get(key, 0) + 1
         if key not in self.violations:
             self.violations[key] = witness
